@@ -107,12 +107,12 @@ func Blocks(tier string) []Lattice {
 		// n=3 on the sub-lattice without historical usage / k
 		n3 := Lattice{Name: "n3-sub-nousage", N: 3, Totals: fullTotals, Ks: []float64{0},
 			Des: []float64{0, 1, -1}, Lim: []float64{-1, 1}, Wt: fullWt, Prio: fullPrio,
-			Req: []float64{0, .5, 2}, Use: []float64{0}, Plan: "perms+tb"}
+			Req: []float64{0, .5, 2}, Use: []float64{0}, Plan: "perms+seeds+tb"}
 		// a small n=3 block that does exercise time-based fairness (k>0, usage) so that the quick tier
 		// is not blind to it for three queues
 		n3k := Lattice{Name: "n3-sub-tbf", N: 3, Totals: []float64{1, 3, 4, 7}, Ks: []float64{1, 2},
 			Des: []float64{0, 1}, Lim: []float64{-1}, Wt: fullWt, Prio: fullPrio,
-			Req: []float64{.5, 5}, Use: fullUse, Plan: "perms"}
+			Req: []float64{.5, 5}, Use: fullUse, Plan: "perms+seeds"}
 		// cheapest first: if the internal deadline ever hits, it cuts the tail of the largest block
 		return []Lattice{n1, n3k, n3, n2}
 	}
